@@ -15,10 +15,11 @@ RULE = ('alloc-dfs: every history over {allocate+register, allocate-only, finish
         'DFS is one distinct history; non-trivial = the history contains at least one allocation made while another '
         'id is active); alloc-random: seeded random histories of 2000 operations started just below the wrap point '
         '(non-trivial = wrapped at least once with active ids); wire/dup: real endpoints, see generators')
-EXHAUSTIVE_GENS = ('alloc-dfs',)
+EXHAUSTIVE_GENS = ('alloc-dfs', 'dup-id')
 ASSUMPTIONS = ['id space is lowered through StreamControl._maximum_stream_id, as the repository\'s own tests do',
                'reference allocator written from the property statement']
-DECIDING_REQUIRED = ('allocations_compared', 'wraps_seen', 'exhaustion_agreed')
+DECIDING_REQUIRED = ('allocations_compared', 'wraps_seen', 'exhaustion_agreed', 'dup_request_rejected',
+                     'request_ids_checked', 'wire_wraps_seen', 'ids_skipped_because_active')
 
 DEPTH = {'quick': 6, 'thorough': 8}
 PREFIX = 2
